@@ -1,20 +1,23 @@
 #!/bin/bash
-# usage: rundiff.sh <name> [ignore-list]  -- compares /tmp/w12/wt/src against /repo/src
+# usage: rundiff.sh <name> [ignore-list] [alias-list] -- compares /tmp/w14/wt/src against /repo/src
 # ignore-list: comma separated private/implementation names that the refactor is documented to add or move
+# alias-list: old.path=new.path,... (see DIFF_ALIAS in diffcheck.py); applied to the candidate only
 set -u
 name=${1:-cur}
 ign=${2:-}
+ali=${3:-}
 export PYTHONHASHSEED=0
 export DIFF_IGNORE=$ign
-D=/tmp/w12/diffout
+D=/tmp/w14/diffout
 mkdir -p $D
 key=$(echo -n "$ign" | md5sum | cut -c1-8)
 ref=$D/ref_$key
-if [ ! -s $ref.txt ] || [ /tmp/w12/diffcheck.py -nt $ref.txt ]; then
-  (cd /tmp && PYTHONPATH=/repo/src /venv/bin/python -B /tmp/w12/diffcheck.py > $ref.txt 2>$ref.err; tail -1 $ref.err)
-  (cd /tmp && DIFF_MSGS=1 PYTHONPATH=/repo/src /venv/bin/python -B /tmp/w12/diffcheck.py > ${ref}_msgs.txt 2>/dev/null)
+if [ ! -s $ref.txt ] || [ /tmp/w14/diffcheck.py -nt $ref.txt ]; then
+  (cd /tmp && PYTHONPATH=/repo/src /venv/bin/python -B /tmp/w14/diffcheck.py > $ref.txt 2>$ref.err; tail -1 $ref.err) &
+  (cd /tmp && DIFF_MSGS=1 PYTHONPATH=/repo/src /venv/bin/python -B /tmp/w14/diffcheck.py > ${ref}_msgs.txt 2>/dev/null) &
 fi
-(cd /tmp && PYTHONPATH=/tmp/w12/wt/src /venv/bin/python -B /tmp/w12/diffcheck.py > $D/$name.txt 2>$D/$name.err; tail -1 $D/$name.err)
-(cd /tmp && DIFF_MSGS=1 PYTHONPATH=/tmp/w12/wt/src /venv/bin/python -B /tmp/w12/diffcheck.py > $D/${name}_msgs.txt 2>/dev/null)
+(cd /tmp && DIFF_ALIAS=$ali PYTHONPATH=/tmp/w14/wt/src /venv/bin/python -B /tmp/w14/diffcheck.py > $D/$name.txt 2>$D/$name.err; tail -1 $D/$name.err) &
+(cd /tmp && DIFF_ALIAS=$ali DIFF_MSGS=1 PYTHONPATH=/tmp/w14/wt/src /venv/bin/python -B /tmp/w14/diffcheck.py > $D/${name}_msgs.txt 2>/dev/null) &
+wait
 if cmp -s $ref.txt $D/$name.txt; then echo "DIFFCHECK $name (ignore='$ign'): IDENTICAL ($(grep -c . $D/$name.txt) lines)"; else echo "DIFFCHECK $name: DIFFERENT"; diff $ref.txt $D/$name.txt | head -c 6000; fi
 echo "message-level differing probes: $(diff ${ref}_msgs.txt $D/${name}_msgs.txt | grep -c '^<')"
